@@ -10,7 +10,7 @@ import vlib
 SPEC = os.path.join(vlib.VERIF, "spec", "win")
 MODULE = {"tumbling": "Tumbling", "sliding": "Sliding", "session": "Session"}
 MONITOR = {"tumbling": "TraceWin", "sliding": "TraceWin", "session": "TraceSession"}
-UNITS = [1000, 3500, 700, 13000, 250]   # ms per tick: also sizes that are not divisors of a minute
+UNITS = [1000, 3500, 700, 13000, 250, 1, 1]      # 1 ms per tick: window boundaries and watermarks one millisecond apart   # ms per tick: also sizes that are not divisors of a minute
 
 
 def consts(kind, c, emit, prop=None):
